@@ -67,11 +67,12 @@ def op_transfer(w: World, op: dict):
     except Killed:
         w.emit({"op": "Abort"}, {"op": "abort"})
         return
-    except FileNotFoundError:
+    except Exception as exc:  # noqa: BLE001 - whatever the library raises is an observation for the specification to judge
         if not began:
-            w.emit(act, {"op": "xstatus", "exc": "FileNotFoundError"})
-            return
-        raise
+            w.emit(act, {"op": "xstatus", "exc": type(exc).__name__})
+        else:
+            w.emit({"op": "TransferEnd"}, {"op": "transfer", "exc": type(exc).__name__, "transferred": [], "failed": []})
+        return
     if began.get("new"):
         w.emit({"op": "TransferEnd"},
                {"op": "transfer", "transferred": w.ids(res.transferred), "failed": w.ids(res.failed)})
@@ -148,8 +149,8 @@ def op_status(w: World, op: dict):
         finally:
             if index is not None:
                 index.close()
-    except FileNotFoundError:
-        w.emit(act, {"op": "status", "exc": "FileNotFoundError"})
+    except Exception as exc:  # noqa: BLE001 - the exception type is the observation
+        w.emit(act, {"op": "status", "exc": type(exc).__name__})
         return
     w.emit(act, {"op": "status", "exists": w.ids(r.exists), "missing": w.ids(r.missing)})
 
@@ -161,8 +162,8 @@ def op_cmpstatus(w: World, op: dict):
     act = {"op": "CompareStatus", "a": op["a"], "b": op["b"], "ids": sorted(op["ids"]), "shallow": op["shallow"]}
     try:
         r = compare_status(a, b, set(_his(w, op["ids"])), check_deleted=True, shallow=op["shallow"])
-    except FileNotFoundError:
-        w.emit(act, {"op": "cmpstatus", "exc": "FileNotFoundError"})
+    except Exception as exc:  # noqa: BLE001
+        w.emit(act, {"op": "cmpstatus", "exc": type(exc).__name__})
         return
     w.emit(act, {"op": "cmpstatus", "ok": w.ids(r.ok), "missing": w.ids(r.missing), "new": w.ids(r.new),
                  "deleted": w.ids(r.deleted)})
